@@ -93,6 +93,7 @@ type KVParams struct {
 	BigP        float64 // probability that a multi-op write transaction carries an oversized entry (its commit must fail)
 	Restart     float64 // probability of a dirty restart step after a transaction
 	Merge       float64 // probability of a Merge step after a transaction
+	Mega        float64 // probability of a program with a few values of 1-2 MiB in 4 MiB segments (multi-chunk payloads)
 }
 
 // advanceStep draws a clock move.
@@ -233,6 +234,15 @@ func KV(r *core.Rng, p KVParams) *prog.Program {
 		g.Long = true
 		pg.Cfg.SegSize = []int64{4096, 8192}[r.Intn(2)]
 	}
+	mega := p.Mega > 0 && r.Bool(p.Mega)
+	if mega {
+		// few transactions, a few of them with a value of 1-2 MiB
+		pg.Cfg.SegSize = 4 << 20
+		g.Long = false
+		g.Keys = subset(r, KVKeys, 2, 2)
+		p.Buckets, p.Views = 1, false
+		p.MinTx, p.MaxTx, p.MaxOps, p.BigP, p.Merge, p.Restart = 2, 3, 2, 0, 0, 0
+	}
 	nb := p.Buckets
 	if nb <= 0 {
 		nb = 1
@@ -260,6 +270,14 @@ func KV(r *core.Rng, p KVParams) *prog.Program {
 		st := prog.Step{K: prog.STx}
 		for j := 0; j < nops; j++ {
 			st.Ops = append(st.Ops, g.kvWrite(p))
+		}
+		if mega && r.Bool(0.5) {
+			for j := range st.Ops {
+				if st.Ops[j].K == "put" || st.Ops[j].K == "putts" {
+					st.Ops[j].Big = (1 << 20) + r.Range(1, 900000)
+					break
+				}
+			}
 		}
 		if p.BigP > 0 && r.Bool(p.BigP) {
 			big := prog.Op{K: "put", B: g.pick(g.Bkts), Key: g.pick(g.Keys), Val: g.Val(), Big: int(pg.Cfg.SegSize)}
